@@ -63,11 +63,13 @@ C = {
  "C09": ("the leaf operations of the dispatch index, for every state of the two maps: _remove_head_from_event_matching_structures removes exactly one "
          "occurrence of the head's pair and its reverse entry (or changes nothing) and never raises on a consistent index; "
          "_add_head_to_event_matching_structures appends the pair under exactly the event name it records in the reverse map; both leave every other "
-         "list and entry untouched (frames verified); the action pruning of _clean_up_state keeps every action that a surviving flow instance "
+         "list and entry untouched (frames verified); the callback _flow_head_changed (verified as a client of the two): afterwards the index records "
+         "the head under the event name of its element iff the head is waiting (on a match element, not INACTIVE, flow waiting / starting / "
+         "started), and holds no entry for it otherwise; the action pruning of _clean_up_state keeps every action that a surviving flow instance "
          "references, as the same object, and invents nothing",
          "after every run_to_completion on generated programs x exhaustive short histories (incl. JSON save/restore and simulated idle time): no pending "
          "internal event, heads parked on waits, no dangling uids, dispatch index == from-scratch scan",
-         "that the callers invoke the two operations at the right moments (FlowHead setters, _flow_head_changed, _abort_flow / _finish_flow) and the whole-"
+         "that the callback is invoked on every change (FlowHead setters, _abort_flow / _finish_flow) and the whole-"
          "loop invariants (quiescence, parked heads) are bounded only; get_event_name_from_element is unknown pure code; tuples compare structurally "
          "(axiomatised for lengths 1-3)"),
  "C10": ("the `except Exception` handler of _advance_head_front (block contract on its statements): for every exception object and every element the "
